@@ -11,11 +11,20 @@ use crate::e2e::*;
 use crate::engine::*;
 use crate::{vensure, vfail};
 
-pub const RULE: &str = "configurations: defaults, extremes (0, 1, 255 / 4000-5000) and dense windows (every value within +-3 quick / +-20 thorough) around where buffer arithmetic places a boundary - UDP max_response_peers near 112/338 (io_uring, v6/v4) and 454/1362 (mio), max_scrape_torrents near 170 (io_uring) and up to 255; HTTP max_peers near 438 (v6) / 1322 (v4), scrapes of 50..65 distinct hashes under max_scrape_torrents in {1, 50, 100}, and - for max_scrape_torrents from 1 to usize::MAX on 1-3 swarm workers - the longest scrapes the running tracker's request buffer takes (the accepted request length is found by bisection with a padded one-hash scrape against the tracker itself, then scrapes of n_max, n_max-1, 0.9 n_max, limit and limit+1 distinct hashes are sent); both backends and address families. For each configuration the tracker is started; either run() refuses it at start-up, or the worst-case accepted requests are issued against it: one torrent is filled with max+1 peers of the family and an announce asks for the maximum; the longest scrape allowed (<= limit, <= what the request buffer takes). Oracle (the arithmetic only aims the generator and is never used by it): the client receives the complete reply - UDP datagram parses with the independent decoder and has min(max, swarm) peers / min(n, limit) entries; HTTP passes the strict framing and bencode readers and the connection survives. non-trivial = worst-case reply within 64 bytes of a buffer size, or the configuration refused; distinct = distinct configuration";
+pub const RULE: &str = "configurations: defaults, extremes (0, 1, 255 / 4000-5000) and dense windows (every value within +-3 quick / +-20 thorough) around where buffer arithmetic places a boundary - UDP max_response_peers near 112/338 (io_uring, v6/v4) and 454/1362 (mio) - the IPv4 values against trackers without IPv6, where 6-byte peers decide what is accepted -, max_scrape_torrents near 170 (io_uring) and up to 255; HTTP max_peers near 438 (v6) / 1322 (v4), scrapes of 50..65 distinct hashes under max_scrape_torrents in {1, 50, 100}, and - for max_scrape_torrents from 1 to usize::MAX on 1-3 swarm workers - the longest scrapes the running tracker's request buffer takes (the accepted request length is found by bisection with a padded one-hash scrape against the tracker itself, then scrapes of n_max, n_max-1, 0.9 n_max, limit and limit+1 distinct hashes are sent); both backends and address families. For each configuration the tracker is started; either run() refuses it at start-up, or the worst-case accepted requests are issued against it: one torrent is filled with max+1 peers of the family and an announce asks for the maximum; the longest scrape allowed (<= limit, <= what the request buffer takes). Oracle (the arithmetic only aims the generator and is never used by it): the client receives the complete reply - UDP datagram parses with the independent decoder and has min(max, swarm) peers / min(n, limit) entries; HTTP passes the strict framing and bencode readers and the connection survives. non-trivial = worst-case reply within 64 bytes of a buffer size, or the configuration refused; distinct = distinct configuration";
 
 #[derive(Debug, Clone, Serialize, Deserialize, PartialEq)]
 pub enum Case {
-    Udp { uring: bool, v6: bool, max_response_peers: usize, max_scrape_torrents: u8 },
+    Udp {
+        uring: bool,
+        v6: bool,
+        max_response_peers: usize,
+        max_scrape_torrents: u8,
+        /// tracker with network.use_ipv6 = false (replies carry 6-byte peers only, so the limits the
+        /// tracker may accept are three times higher than with both families on)
+        #[serde(default)]
+        v4_only: bool,
+    },
     Http { v6: bool, max_peers: usize, max_scrape_torrents: usize, scrape_len: usize },
     /// the longest scrape the tracker's request buffer takes, found by probing the tracker itself
     HttpLongestScrape { swarm_workers: usize, max_scrape_torrents: usize },
@@ -35,10 +44,10 @@ fn connect(c: &UdpClient) -> Result<i64, Violation> {
 pub fn prop(case: &Case) -> CaseResult {
     let mut out = Outcome::default();
     match case {
-        Case::Udp { uring, v6, max_response_peers, max_scrape_torrents } => {
+        Case::Udp { uring, v6, max_response_peers, max_scrape_torrents, v4_only } => {
             let (n, k) = (*max_response_peers, *max_scrape_torrents);
             let t = start_udp(|port| {
-                let mut c = udp_config(port, SocketMode::Both, *uring, 1);
+                let mut c = udp_config(port, if *v4_only && !*v6 { SocketMode::V4Only } else { SocketMode::Both }, *uring, 1);
                 c.protocol.max_response_peers = n;
                 c.protocol.max_scrape_torrents = k;
                 c.cleaning.torrent_cleaning_interval = 100_000;
@@ -416,7 +425,12 @@ pub fn cases(tier: Tier) -> Vec<Case> {
         values.sort();
         values.dedup();
         for n in values {
-            v.push(Case::Udp { uring, v6, max_response_peers: n, max_scrape_torrents: 70 });
+            // the IPv4 boundaries only exist for a tracker without IPv6 (with both families on, the
+            // 18-byte peer size decides what is accepted)
+            v.push(Case::Udp { uring, v6, max_response_peers: n, max_scrape_torrents: 70, v4_only: !v6 });
+            if !v6 && (n <= 30 || n == 4500) {
+                v.push(Case::Udp { uring, v6, max_response_peers: n, max_scrape_torrents: 70, v4_only: false });
+            }
         }
     }
     for uring in [true, false] {
@@ -426,7 +440,7 @@ pub fn cases(tier: Tier) -> Vec<Case> {
         ks.sort();
         ks.dedup();
         for k in ks {
-            v.push(Case::Udp { uring, v6: false, max_response_peers: 30, max_scrape_torrents: k as u8 });
+            v.push(Case::Udp { uring, v6: false, max_response_peers: 30, max_scrape_torrents: k as u8, v4_only: k % 2 == 1 });
         }
     }
     // HTTP
